@@ -65,6 +65,33 @@ def run(ctx):
         ev = (table.nth_line(tf, k) or "")[:400]
         ctx.violation("memory scenario on %s/%s is not a behaviour of Trace_Mem (leak / red-zone damage / double free / crash / result depends on heap contents): %s" % (be, kind, ev),
                       detail={"accepted_prefix": k - 1, "of": n, "event": ev}, files=[tf])
+    # 2b. thread create / exit histories x object lifetimes: a Lagrange polynomial keeps (in its public precomp field) a pointer to the FFT processor of the thread
+    #     that created it, and every operation writing the polynomial reads that processor.  Probe: polynomial created by a thread that exits, then used by the
+    #     main thread; Trace_Threads decides by identity (PolyUse requires the recorded processor to be alive and still its creator's) - the outcome of the
+    #     dangling read itself is not what is judged (it is usually a stale but still mapped value).
+    import json
+    for be, kind in cfgs:
+        exe = build.harness("h_threads", be, kind, extra=["-I", os.path.join(os.environ.get("VERIF_REPO", "/repo"), "src", "libtfhe")])
+        tf = os.path.join(ctx.dir, "probe-%s-%s.ndjson" % (be, kind))
+        with open(tf, "w") as f:
+            rc, _, err = sh([exe, "--probe", "1", "--seed", str(ctx.seed)], stdout=f, timeout=600)
+        if rc != 0:
+            ctx.violation("h_threads probe died on %s/%s rc=%s %s" % (be, kind, rc, err[-200:]), key="h_threads probe crash %s %s" % (be, kind))
+            continue
+        n = sum(1 for _ in open(tf))
+        r = tlc.run_tlc("Trace_Threads", cfg="Trace_Threads_probe.cfg", env={"TRACE": tf}, workers=1, workdir=ctx.dir, timeout=600)
+        if r.ok and r.depth == n + 1:
+            ctx.add("events_validated", n); ctx.add("traces_validated_against_impl", 1)
+            continue
+        if r.error and not r.violated and "ostcondition" not in r.out:
+            raise CheckBroken("TLC failed on the lifetime probe: %s" % r.error)
+        k = max(1, r.depth or 1)
+        ev = json.loads(table.nth_line(tf, k) or "{}")
+        if ev.get("e") == "PolyUse" and k == n:
+            ctx.violation("a Lagrange polynomial created by a thread that has exited is used by another thread: the operation reads the destroyed per-thread FFT processor through the polynomial's precomp pointer (%s/%s; outcome of the dangling read this time: %s)" % (be, kind, ev.get("outcome")),
+                          key="LagrangeHalfCPolynomial used after its creating thread exited reads that thread's destroyed FFT processor (precomp): backend=%s build=%s" % (be, kind), files=[tf])
+        else:
+            ctx.violation("thread / object lifetime probe on %s/%s is not a behaviour of Trace_Threads: accepted %d of %d events, rejected %s" % (be, kind, k - 1, n, str(ev)[:300]), files=[tf])
     # 3. "forall API lifecycles (new/use/export/import/delete in every order the API allows)": the lifecycle machine Life is checked exhaustively for a small
     #    budget, TLC then samples long behaviours of it, and h_life replays each on the library under the ledger; Trace_Life validates every step
     for kind in ("custom", "default"):
